@@ -160,7 +160,7 @@ func init() {
 					if io, bad := inconclusiveIf(res); bad {
 						return io
 					}
-					if res.Verdict != engine.Accept {
+					if !res.AcceptedHonestly() {
 						return fw.Violate("permutation_failed", fmt.Sprintf("state %v: %s", s, resStr(res)))
 					}
 					for i := range want {
@@ -183,7 +183,7 @@ func init() {
 							return nil
 						})
 						o.Events += events(rc)
-						if rc.Verdict != engine.Accept {
+						if !rc.AcceptedHonestly() {
 							return fw.Violate("permutation_failed", fmt.Sprintf("constant state %v: %s", s, resStr(rc)))
 						}
 						for i := range want {
@@ -242,7 +242,7 @@ func init() {
 					}
 					got, res := gadget.EngineEval(engine.Options{Face: engine.Native}, fn, flat)
 					o.Events += events(res)
-					if res.Verdict != engine.Accept || len(got) != len(want) {
+					if !res.AcceptedHonestly() || len(got) != len(want) {
 						return fw.Violate("hash_failed:retain", fmt.Sprintf("%d hashes on one chip: %s", nh, resStr(res)))
 					}
 					for i := range want {
@@ -302,7 +302,7 @@ func init() {
 					if io, bad := inconclusiveIf(res); bad {
 						return io
 					}
-					if res.Verdict != engine.Accept {
+					if !res.AcceptedHonestly() {
 						return fw.Violate("hash_failed:"+c.Kind, fmt.Sprintf("n=%d m=%d: %s %s", n, m, resStr(res), res.Msg))
 					}
 					if len(got) != m {
@@ -330,7 +330,7 @@ func init() {
 							st   [24]uintptr
 						}{ev.Seq, ev.Name, ev.Stack})
 					}}, poseidonPermGadget, stateIn(s))
-					if res0.Verdict != engine.Accept {
+					if !res0.AcceptedHonestly() {
 						return fw.Inconcl("recording run: " + resStr(res0))
 					}
 					pick := evs[r.Intn(len(evs))]
@@ -464,7 +464,7 @@ func init() {
 						res = harnRunCommitPadded(body, gadget.PadCommit)
 					}
 					o.Events += events(res)
-					if res.Verdict != engine.Accept {
+					if !res.AcceptedHonestly() {
 						return fw.Violate("permutation_failed:commit", resStr(res))
 					}
 					for k, s := range states {
@@ -609,7 +609,7 @@ func c10Prop() *fw.Prop {
 				}
 				got, res := gadget.EngineEval(engine.Options{Face: engine.Native}, fn, in)
 				o.Events += events(res) + int(res.Stats.Muls)
-				if res.Verdict != engine.Accept {
+				if !res.AcceptedHonestly() {
 					return fw.Violate("bn254_permutation_failed", resStr(res))
 				}
 				for i := range want {
@@ -637,7 +637,7 @@ func c10Prop() *fw.Prop {
 				}
 				got, res := gadget.EngineEval(engine.Options{Face: engine.Native}, fn, in)
 				o.Events += events(res) + int(res.Stats.Muls)
-				if res.Verdict != engine.Accept {
+				if !res.AcceptedHonestly() {
 					return fw.Violate("bn254_hash_failed", fmt.Sprintf("n=%d %s", n, resStr(res)))
 				}
 				if !eq(got[0], ref.BNHashNoPad(vals)) {
@@ -687,7 +687,7 @@ func c10Prop() *fw.Prop {
 					return nil
 				})
 				o.Events += events(res) + int(res.Stats.Muls)
-				if res.Verdict != engine.Accept {
+				if !res.AcceptedHonestly() {
 					return fw.Violate("bn254_sequence_failed", resStr(res))
 				}
 				for _, j := range jobs {
@@ -710,7 +710,7 @@ func c10Prop() *fw.Prop {
 				}
 				got, res := gadget.EngineEval(engine.Options{Face: engine.Native}, fn, []*big.Int{frBig(s[0]), frBig(s[1])})
 				o.Events += events(res) + int(res.Stats.Muls)
-				if res.Verdict != engine.Accept || !eq(got[0], ref.BNTwoToOne(s[0], s[1])) {
+				if !res.AcceptedHonestly() || !eq(got[0], ref.BNTwoToOne(s[0], s[1])) {
 					return fw.Violate("wrong_two_to_one", fmt.Sprintf("%v %v", frBig(s[0]), frBig(s[1])))
 				}
 				o.Inc("two_to_one_checked")
@@ -729,7 +729,7 @@ func c10Prop() *fw.Prop {
 				for _, face := range []engine.Face{engine.Native, engine.Plain} {
 					got, res := gadget.EngineEval(engine.Options{Face: face}, toVecGadget, []*big.Int{h})
 					o.Events += events(res)
-					if res.Verdict != engine.Accept {
+					if !res.AcceptedHonestly() {
 						return fw.Violate("tovec_failed", fmt.Sprintf("h=%s %s", h, resStr(res)))
 					}
 					if len(got) != len(want) {
@@ -749,7 +749,7 @@ func c10Prop() *fw.Prop {
 						return nil
 					})
 					o.Events += events(rc)
-					if rc.Verdict != engine.Accept {
+					if !rc.AcceptedHonestly() {
 						return fw.Violate("tovec_failed", fmt.Sprintf("constant h=%s %s", h, resStr(rc)))
 					}
 					if len(outs) != len(want) {
@@ -817,7 +817,7 @@ func c10Prop() *fw.Prop {
 				ga, ra := gadget.EngineEval(engine.Options{Face: engine.Native}, fn, toIn(a))
 				gb, rb := gadget.EngineEval(engine.Options{Face: engine.Native}, fn, toIn(b))
 				o.Events += events(ra) + events(rb) + 2
-				if ra.Verdict != engine.Accept || rb.Verdict != engine.Accept {
+				if !ra.AcceptedHonestly() || !rb.AcceptedHonestly() {
 					return fw.Violate("hash_or_noop_failed", resStr(ra))
 				}
 				if len(a) == len(b) && ga[0].Cmp(gb[0]) == 0 {
@@ -910,7 +910,7 @@ func c10Prop() *fw.Prop {
 					}
 					// the engine must agree with the reference on the same gadget ...
 					got, res := gadget.EngineEval(engine.Options{Face: engine.Native}, fn, in)
-					if res.Verdict != engine.Accept {
+					if !res.AcceptedHonestly() {
 						return fw.Violate("bn254_hash_failed", resStr(res))
 					}
 					for i := range want {
